@@ -267,6 +267,14 @@ REQ_VARS = [
     # "bytes beyond the request head" and must reach the upgrade handler (no 100 Continue, nothing consumed)
     ("expect-body-early", {"method": b"POST", "extra": b"Expect: 100-continue\r\nContent-Length: 12\r\n"}, True),
     ("body-early", {"method": b"PUT", "extra": b"Content-Length: 40\r\n"}, True),
+    # the request method: the Upgrade header may accompany any request; a 1xx reply has no body headers whatever the method
+    ("head", {"method": b"HEAD"}, None),
+    ("head-early-body", {"method": b"HEAD", "extra": b"Content-Length: 12\r\n"}, True),
+    ("post-nobody", {"method": b"POST"}, None),
+    ("options", {"method": b"OPTIONS", "url": b"*"}, None),
+    ("connect", {"method": b"CONNECT", "url": b"example.com:80"}, None),
+    ("unknown-method", {"method": b"BREW"}, None),
+    ("delete-ka", {"method": b"DELETE", "conn": b"keep-alive, Upgrade"}, None),
 ]
 
 
@@ -296,6 +304,8 @@ def hdr_case(name, mode, mem, timing, flags, flags_late, cedit, other, reqv, par
     L = ["case " + name, "cfg mode=%s upgrade=1 mem=%d%s" % (mode, mem, " nodate=1" if nodate else ""), "start",
          "resp 0 kind=copy code=200 size=5", resp]
     L.append("beh 0 0 " + ("f=r1/r0" if early else "f=c l=r1/r0"))
+    if not ok and rkw.get("method") == b"HEAD":
+        rkw = dict(rkw, method=b"GET")      # the ordinary reply that follows a refusal: its HEAD framing is C04's subject
     head = mk_head(**rkw)
     stream = head + FOLLOW
     L += ["arrive 0 1", "round"]
@@ -474,6 +484,29 @@ def gen_thr_cases(ctx, tier):
     head = mk_head()
     stream = head + FOLLOW
     j = 0
+    # the upgrade handler's own pace: close action inside the handler after which the handler goes on (the daemon's
+    # thread gets time for a cleanup cycle while the connection's thread is still in the handler), and close action from
+    # the script while the handler has not returned yet; gate inside the handler, opened by the script
+    for (mode, pool) in THR_CONFIGS:
+        for variant in ("inside-continue", "during-handler"):
+            for rep in range((6 if mode == "tpc" else 2) if tier == "thorough" else (3 if mode == "tpc" else 1)):
+                pos = sorted(rng.sample(range(1, len(stream)), rng.randint(0, 2)))
+                name = "thrg-%s-p%d-%s-%d" % (mode, pool, variant, rep)
+                rid, kind = (3, "upgrade-hcw") if variant == "inside-continue" else (4, "upgrade-w")
+                L = ["case " + name, "cfg mode=%s upgrade=1 mem=%d%s" % (mode, ARENAS[j % 3], " pool=%d" % pool if pool else ""), "start",
+                     "resp 0 kind=copy code=200 size=5", "resp %d kind=%s code=101 h=%s:%s" % (rid, kind, UPG, hx(b"test")),
+                     "beh 0 0 " + (("f=r%d" % rid) if j % 2 else ("f=c l=r%d" % rid)), "arrive 0 1", "round"]
+                for part in cuts(stream, pos):
+                    L += ["send 0 " + hx(part), "round"]
+                L += ["rounds 3", "up-await 0"]
+                if variant == "inside-continue":
+                    L += ["rounds 5", "up-release 0", "rounds 4"]
+                else:
+                    L += ["up-recv 0", "up-send 0 " + hx(b"from-app"), "up-close 0", "rounds 5", "up-release 0", "rounds 4"]
+                L.append("stop")
+                cases.append(Case(name, L, hints=[0], relaxed=True,
+                                  meta={"kind": "split", "mode": mode, "pool": pool, "timing": variant, "handler_gate": True}))
+                j += 1
     for (mode, pool) in THR_CONFIGS:
         for t in ("inside", "later", "never"):
             for rep in range(4 if tier == "thorough" else 1):
@@ -1149,7 +1182,7 @@ class Spec:
                          "Mhd.C20.refused_unchanged", "Mhd.C20.unmet_precondition_refused",
                          "Mhd.C20.ordinary_response_after_refusal_accepted",
                          "Mhd.C20.head101_is_reply_builder", "Mhd.C20.upgrade_head_connection_tokens", "Mhd.C20.head101_explicit",
-                         "Mhd.C20.upgrade_head_indep_of_request", "Mhd.C20.accepted_upgrade_is_101_http11",
+                         "Mhd.C20.upgrade_head_indep_of_request", "Mhd.C20.upgrade_head_any_method", "Mhd.C20.accepted_upgrade_is_101_http11",
                          "Mhd.C20.tls_forwarding_fifo", "Mhd.C20.tls_buffers_never_overrun", "Mhd.C20.tls_no_loss_client_to_app",
                          "Mhd.C20.tls_no_loss_app_to_client", "Mhd.C20.tls_released_exactly_once", "Mhd.C20.tls_app_close_completes",
                          "Mhd.C20.tls_stop_completes", "Mhd.C20.tls_client_close_stops_reading"]
@@ -1163,7 +1196,11 @@ class Spec:
                     "request-head parser and ordinary reply bytes are parameters of the model (C02/C03/C04)",
                     "tools/props/C20.py gen_upg (status 101, reason phrase, header names, token, termination codes, version table regenerated)",
                     "harness/h_upg.c (socketpair connections, interposed recv/send/sendmsg/writev/shutdown/close), gcc, ASan/UBSan"]
-    assumptions = ["thread-per-connection: the completion notification of the upgraded request is delivered when the upgrade handler returns "
+    assumptions = ["thread-per-connection, release of the upgrade handle only after the connection's thread has returned from the upgrade "
+                   "handler and was joined: no theorem (the model has no thread identity); tie only — upgrade handler gated by the script "
+                   "(close inside the handler then the handler continues / close from the script while the handler runs) x all thread "
+                   "configurations, ASan",
+                   "thread-per-connection: the completion notification of the upgraded request is delivered when the upgrade handler returns "
                    "(daemon.c thread_main_handle_connection), not with the release; the oracle accepts that there, the model (not "
                    "thread-per-connection) is compared without the position of that event",
                    "hand-over / cleanup model: non-TLS daemon; TLS forwarding: the record layer (GnuTLS) and the socketpair are the environment of the "
